@@ -452,6 +452,23 @@ def gen_rpms(rng):
     return {"header": {"type": "productmd.rpms", "version": "1.2"}, "payload": {"compose": c, "rpms": rpms}}
 
 
+# ------------------------------------------------------------------------------------------------ ids with several 8-digit runs
+ID_PREFIXES = ["rolling-20240101", "x-20240101.n.1", "r-123456789", "a-20200101-20200202", "a_20200101.20200202", "20240101",
+               "p.19990101.t.7_q", "v1234567890123456"]
+SUFFIX_OF = {"production": "", "nightly": ".n", "test": ".t", "ci": ".ci", "development": ".d"}
+
+
+def tricky_id(comp, k):
+    """a compose id whose release part already holds 8-digit runs (a date-like version, `<8 digits>.<letters>.<digits>` look-alikes,
+    9+ digits, two dates separated by - . _): below 0.3 date/type/respin are what FOLLOWS THE LAST run of eight digits"""
+    if comp.get("type") not in SUFFIX_OF or not isinstance(comp.get("respin"), int) or not (0 <= comp["respin"] < 10 ** 7):
+        return
+    date = comp["date"]
+    if not (isinstance(date, str) and len(date) == 8 and date.isdigit()):
+        return
+    comp["id"] = "%s-%s%s.%d" % (ID_PREFIXES[k % len(ID_PREFIXES)], date, SUFFIX_OF[comp["type"]], comp["respin"])
+
+
 # ------------------------------------------------------------------------------------------------ the property
 class C05(Prop):
     id = "C05"
@@ -468,8 +485,8 @@ class C05(Prop):
     assumptions = ["json.load / configparser invert the printers on what the writers produce (exercised on every case)",
                    "documents reach both sides with object keys in sorted order (json.dumps(sort_keys=True)); key order is observable "
                    "only through which of several errors is raised first",
-                   "treeinfo 0.0 (pre-productmd) has no documented mapping: only idempotence, the shipped fixtures and correspondence "
-                   "with the model of the heuristics are claimed",
+                   "treeinfo 0.0 (pre-productmd) has no documented mapping: idempotence, the shipped fixtures, the literal mapping table, "
+                   "per-section closed forms (C05_ti_00_*) and correspondence with the model of the heuristics are claimed",
                    "int(float(text)) of CPython is supplied to the model as an oracle table (floats are never computed in Lean)"]
     partial = {
         "C05_images_idempotent_partial": "hypothesis Uniq (identity collisions): automatic from 1.1 on (C05_images_uniq_from_1_1), a real "
@@ -485,12 +502,20 @@ class C05(Prop):
                              "load does not establish (F17 timestamp, F24 top-level addon, F25 platform name, comma-free non-empty distinct "
                              "UIDs / platforms, text representability, ReadValid of the normal form); timestamp integrality, UID keying, "
                              "ChecksumsOK and image keys are discharged from the legacy reader",
-        "C05_ci_upgrade_witness": "faithfulness for composeinfo is proved per section / on witnesses (C05_ci_upgrade_witness, "
-                        "C05_ci_faithful_product_not_internal); the general forest theorem deserialize_v (down_v x) = ok (expect_v x) is "
-                        "not proved (validated per case by the spec-level down-converter)",
+        "C05_ci_faithful_down": "general: Legacy.deserialize (CI.down vs ver keep ci) = ok (CI.expected ver keep ci) for every WellKeyed ci, "
+                                "every version; side conditions exact and decidable - IdDerivable below 0.3 (date/type/respin are decoded "
+                                "from the id: F10/F24), LegacyDomain below 1.0 (KidsExact and TopsExact on the uid-keyed table: depth <= 2 "
+                                "and no top-level UID a dash-extension of another; F32 shows necessity, C05_ci_down_domain_needed); "
+                                "CI.down / CI.expected are tied to legacy.ci_down / ci_expect on every ci case",
+        "C05_ti_faithful_down": "general for every header version but 0.0: Legacy.deserialize (TI.down vs ver ck t) = ok (norm t); hypotheses "
+                                "are those of C04_tree_readback plus, only for <= 0.3, ChainOK (option_lookup chain meets no other "
+                                "variant's section) and SrcRepresentable (no binary paths on a source tree), both decidable and shown "
+                                "necessary (C05_ti_down_conditions_needed); TI.down is tied to legacy.ti_sections on every ti case",
         "C05_rpms_faithful_witness": "the general re-filing statement for 0.3 manifests is C10's (C10_rpms_refile); here a witness",
-        "C05_ti_upgrade_0_0_witness": "treeinfo 0.0 has no documented mapping other than the code: only idempotence, the 60 shipped "
-                                      "pre-productmd fixtures and correspondence of the modelled heuristics are claimed",
+        "C05_ti_upgrade_0_0_witness": "treeinfo 0.0 has no documented mapping other than the code: per-section closed forms for any file "
+                                      "(C05_ti_00_tree / _release / _media / _relative_paths / _top_variant / _general_variant / "
+                                      "_general_paths), idempotence, the 60 shipped pre-productmd fixtures, the literal-table oracle and "
+                                      "correspondence of the modelled heuristics; no TI.down for 0.0 (the layout loses facts)",
     }
 
     def __init__(self):
@@ -560,15 +585,22 @@ class C05(Prop):
                     c = spec["compose"]
                     c["id"] = c["id"][:c["id"].rindex(".") + 1] + str(r)
                     c["respin"] = r
+                if L.vt(ver) < (0, 3) and cnt["ci"] % 3 == 0:
+                    tricky_id(spec["compose"], cnt["ci"] // 3)
                 yield {"op": "ci", "args": {"spec": spec, "version": ver, "keep_internal": rng.random() < 0.4,
                                             "opts": flags("ci", ["no_final", "explicit_defaults", "upper_type", "type_mismatch"])}}
             elif k < 11:
                 ver = nxt("img", L.IMG_VERSIONS)
-                yield {"op": "img", "args": {"spec": self.img_spec(rng, tier, ver), "version": ver,
+                ispec = self.img_spec(rng, tier, ver)
+                if L.vt(ver) < (0, 3) and cnt["img"] % 2 == 0:
+                    tricky_id(ispec["compose"], cnt["img"] // 2)
+                yield {"op": "img", "args": {"spec": ispec, "version": ver,
                                              "opts": flags("img", ["empty_cell", "no_final", "type_mismatch", "keep_defaults"])}}
             elif k < 14:
                 ver = nxt("rpms", L.RPMS_VERSIONS)
                 doc = gen_rpms(rng)
+                if L.vt(ver) < (0, 3) and cnt["rpms"] % 2 == 0:
+                    tricky_id(doc["payload"]["compose"], cnt["rpms"] // 2)
                 fl = flags("rpms", ["no_final", "type_mismatch", "empty_bucket"])
                 if fl.get("empty_bucket") and L.vt(ver) > (0, 3):
                     # an empty variant and an empty arch bucket: stored verbatim by the >= 0.4 readers (a 0.3 manifest cannot say it)
@@ -711,7 +743,15 @@ class C05(Prop):
     def model_requests(self, case):
         fmt, text, doc = self.document(case)
         if fmt == "composeinfo":
-            return [{"op": "c05_ci_cycle", "args": {"doc": doc}}]
+            reqs = [{"op": "c05_ci_cycle", "args": {"doc": doc}}]
+            if case["op"] == "ci":
+                # tie of the Lean specification `CI.down` / `CI.expected` (the theorems C05_ci_faithful_down*) to the spec-side
+                # down-conversion this harness feeds to the library
+                a = case["args"]
+                t = L.vt(a["version"])
+                sp = {"spec": CF.strip_parent(a["spec"]), "vs": a["version"], "ver": [t[0], t[1]], "keep_internal": bool(a.get("keep_internal"))}
+                reqs += [{"op": "c05_ci_down", "args": sp}, {"op": "c05_ci_expected", "args": sp}]
+            return reqs
         if fmt == "images":
             return [{"op": "c05_img_cycle", "args": {"doc": IF.enc(doc)}}]
         if fmt == "rpms":
@@ -719,7 +759,14 @@ class C05(Prop):
         last = getattr(self, "_last", None)
         r = last[1] if last is not None and last[0] is case else None
         t1 = ((r or {}).get("dump") or {}).get("ok")
-        return [{"op": "c05_ti_cycle", "args": {"text": text, "floats": floats_of_text(text, t1)}}]
+        reqs = [{"op": "c05_ti_cycle", "args": {"text": text, "floats": floats_of_text(text, t1)}}]
+        if case["op"] == "ti":
+            # tie of the Lean specification `TI.down` (the theorems C05_ti_faithful_down*) to the spec-side `legacy.ti_sections`
+            a = case["args"]
+            t = L.vt(a["version"])
+            reqs.append({"op": "c05_ti_down", "args": {"spec": TF.model_tree_spec(a["spec"]), "vs": a["version"], "ver": [t[0], t[1]],
+                                                       "child_key": a.get("child_key", "addons")}})
+        return reqs
 
     def has_rpms_model(self):
         p = os.path.join(checklib.LEAN, "ProductMD", "Model", "RpmsLegacy.lean")
@@ -727,7 +774,13 @@ class C05(Prop):
 
     def model_result(self, case, outs):
         o = outs[0]
-        return json.loads(o) if isinstance(o, str) else o
+        res = json.loads(o) if isinstance(o, str) else o
+        if len(outs) == 3 and isinstance(res, dict):
+            res["_down"] = json.loads(outs[1]) if isinstance(outs[1], str) else outs[1]
+            res["_expected"] = json.loads(outs[2]) if isinstance(outs[2], str) else outs[2]
+        if len(outs) == 2 and isinstance(res, dict) and case["op"] == "ti":
+            res["_ti_down"] = json.loads(outs[1]) if isinstance(outs[1], str) else outs[1]
+        return res
 
     def canon_model(self, fmt, snap):
         if fmt == "composeinfo":
@@ -763,6 +816,30 @@ class C05(Prop):
             if checklib.canon(rv) != checklib.canon(mv):
                 r[k], m[k] = rv, mv
                 break                                   # later steps depend on this one
+        if not r and case["op"] == "ci" and isinstance(model_out, dict) and "_down" in model_out:
+            a = case["args"]
+            nspec = CF.norm(a["spec"])
+            dn = model_out["_down"]
+            if isinstance(dn, dict) and "ok" in dn:
+                want = json.loads(json.dumps(L.ci_down(L.ci_doc(nspec), a["version"], a.get("keep_internal", False))))
+                if dn["ok"] != want:
+                    r["spec-side down-conversion (legacy.ci_down)"], m["Lean CI.down"] = first_diff(want, dn["ok"]), "differs"
+                ex = CF.canon(L.ci_expect(nspec, a["version"], a.get("keep_internal", False)))
+                got = CF.canon(model_out["_expected"])
+                if not r and checklib.canon(ex) != checklib.canon(got):
+                    r["spec-side expectation (legacy.ci_expect)"], m["Lean CI.expected"] = first_diff(got, ex), "differs"
+        if not r and case["op"] == "ti" and isinstance(model_out, dict) and "_ti_down" in model_out:
+            a = case["args"]
+            dn = model_out["_ti_down"]
+            if isinstance(dn, dict) and "ok" in dn:
+                # Lean: the current writer's file with the documented differences applied; [general] is C17's subject
+                got = dict((sec, dict(map(tuple, opts))) for sec, opts in dn["ok"] if sec != "general")
+                want = L.ti_sections(a["spec"], a["version"], a.get("child_key", "addons"))
+                self.tie_ti = getattr(self, "tie_ti", 0) + 1
+                if os.environ.get("C05_TIE_DEBUG"):
+                    import sys; sys.stderr.write("tie_ti %d %s %s\n" % (self.tie_ti, a["version"], got == want))
+                if got != want:
+                    r["spec-side down-conversion (legacy.ti_sections)"], m["Lean TI.down"] = first_diff(want, got), "differs"
         if r:
             return {"real": r, "model": m}
         return None
@@ -1150,11 +1227,18 @@ MANIFEST = dict(
          "successful dump (C05_ci_idempotent, _bytes), treeinfo for every header version with C04_tree_bytes (C05_ti_idempotent: timestamp "
          "integrality, UID keying, ChecksumsOK, image keys discharged from the legacy reader; F17/F24/F25 and file-syntax conditions carried, "
          "all satisfied by the 0.3 and 0.0 witnesses). Faithful: images subvariant default and version independence from 1.1 (all 15 "
-         "attributes), product section never internal, prefix forest = explicit child lists for top level and children under stated "
-         "conditions (C05_ci_faithful_tops / _children), witnesses for rpms 0.2, composeinfo 0.2, treeinfo 0.3 and 0.0 evaluated in the "
-         "kernel; F11 / F12 / F32 / not-Normal witnesses.",
-    note="Partial: the two forest-faithfulness facts are not assembled through buildL into deserialize(down d) = deserialize d (validated per "
-         "case); C01's Normal is false of what the composeinfo reader returns (witness) and is settled by the first write. treeinfo 0.0 "
-         "mapping: fixtures + correspondence + idempotence only. Known findings met: F10, F11, F12, F24, F32. Documents reach both sides "
+         "attributes; whole documents with the src re-filing: C10_images_refile), product section never internal, prefix forest = "
+         "explicit child lists (C05_ci_faithful_tops / _children). GENERAL DOWN-CONVERSION THEOREMS: composeinfo - "
+         "Legacy.deserialize (CI.down vs ver keep ci) = ok (CI.expected ver keep ci) for every version and every WellKeyed description in the "
+         "faithful domain (C05_ci_faithful_down; no condition from 1.0 on; lossless from 1.1 with internal; then idempotent incl. bytes through "
+         "the modelled json.loads); treeinfo - Legacy.deserialize (TI.down vs ver ck t) = ok (norm t) for every header version but 0.0, forests "
+         "of any depth (C05_ti_faithful_down: [product], no parent, addons/variants, option_lookup chains, src swap; C05_ti_header_only for any "
+         "file differing from an accepted one only in [header]); 0.0: per-section closed forms for any file (C05_ti_00_*). CI.down / "
+         "CI.expected / TI.down are compared with the harness's spec-side down-converters on every generated case. Witnesses for rpms 0.2, "
+         "composeinfo 0.2, treeinfo 0.3 and 0.0 evaluated in the kernel; F11 / F12 / F32 / not-Normal / necessity witnesses.",
+    note="Faithful domains are exact side conditions with decided necessity witnesses (composeinfo < 1.0: F32 depth / dashed prefixes, < 0.3: "
+         "id-derivable date; treeinfo <= 0.3: lookup-chain ambiguity, binary paths on a source tree). C01's Normal is false of what the "
+         "composeinfo reader returns (witness) and is settled by the first write. treeinfo 0.0: no down-conversion is claimed (the layout "
+         "loses facts); rpms 0.3 re-filing in general form is C10's (C10_rpms_refile). Known findings met: F10, F11, F12, F24, F32. Documents reach both sides "
          "with sorted keys; int(float(text)) is an oracle table.",
     ref="7/C05")
